@@ -53,6 +53,7 @@ func apiPaths() []string {
 		`$.items[?(2 >= $.want)]`, `$.items[?(2 > $.want)]`, `$.items[?(1 <= $.want)]`, `$.items[?(3 < $.want)]`, `$.list[?(1 >= $.a)]`, `$.list[?(1 < $.a)]`,
 		`$.x[?(@.a[?(@.b > 0)])]`, `$.x[?(@.a[?(@.b > 0)])].a`, `$[?(@.a[?(@ > 0)])]`, `$.x[?(@.a > 0 && @.a[?(@ > 0)])]['a']`, `$.list[?($.flag)]`, `$.list[?(!$.flag)]`, `$.list[?($.flag && @.x == 1)]`, `$[?($[0].a)]`,
 		`$[?(@.a)].*`, `$[?(@.a)]..a`, `$[?(@.a)][?(@ > 0)]`,
+		`$[?(!@)]`, `$[?(@ && @.a==1)]`, `$[?(@ || @.a==1)]`, `$[?(@ && @ > 1)]`, `$.a[?(!@)]`, `$[?(@ == 1 || @)]`,
 		`$[?(@.a[*])]`, `$[?(@.a.*)]`, `$[?(@.*)]`, `$.x[?(@.a[*])]`, `$.x[?(@.a.*)]`, `$.items[*]`, `$.x[*].a[*]`, `$[?(@[*])]`, `$[?(@.a[0:])]`, `$[?(@.a[0,1])]`,
 		`$[-2:]`, `$[-3:]`, `$[-2:].slow()`, `$[1:].slow()`, `$[-3:]..a`, `$.*.slow()`, `$..a.slow()`, `$[?(@.a)].slow()`, `$[-2:].twice()`, `$[1:3]`, `$[?(@ > 1)]`,
 		`$['a','b'].twice()`, `$['a','b'].collect()`, `$..a.collect()`, `$.zz`, `$.a.zz`, `$[10]`, `$.*.zz`, `$..zz`, `$[?(@.zz)]`, `$.a[0]`, `$[0].a`,
@@ -2103,6 +2104,25 @@ func pegBoundaryCorpus(g *pegGrammar) []string {
 	}
 	chars := pegBoundaryChars(g)
 	var out []string
+	// escapes: every pair and triple of the escaping characters inserted at every position of quoted texts
+	esc := []string{"\\", "'", "\"", "/", "a"}
+	var combos []string
+	for _, a := range esc {
+		for _, b := range esc {
+			combos = append(combos, a+b)
+			for _, c := range esc[:3] {
+				combos = append(combos, a+b+c)
+			}
+		}
+	}
+	for _, sd := range []string{`$[?(@.a=='de')]`, `$[?(@.a=="de")]`, `$[?(@.a=~/de/)]`, `$['de']`, `$["de"]`, `$.d.e`, `$['d','e']`} {
+		r := []rune(sd)
+		for pos := 0; pos <= len(r); pos++ {
+			for _, c := range combos {
+				out = append(out, string(r[:pos])+c+string(r[pos:]))
+			}
+		}
+	}
 	for _, sd := range seeds {
 		r := []rune(sd)
 		for pos := 0; pos <= len(r); pos++ {
